@@ -961,12 +961,14 @@ class Part(object):
         i = np.searchsorted(self._points, tp)
         if self._points[i] == tp:
             self._points = np.delete(self._points, i)
-            if i > 0:
-                self._points[i - 1].next = self._points[i]
-                self._points[i].prev = self._points[i - 1]
-            if i < len(self._points) - 1:
-                self._points[i].next = self._points[i + 1]
-                self._points[i + 1].prev = self._points[i]
+            # link the former neighbours of the removed point to each other;
+            # after the deletion they are at i - 1 and i (either may be missing)
+            prev_tp = self._points[i - 1] if i > 0 else None
+            next_tp = self._points[i] if i < len(self._points) else None
+            if prev_tp is not None:
+                prev_tp.next = next_tp
+            if next_tp is not None:
+                next_tp.prev = prev_tp
 
     def get_point(self, t):
         """Return the `TimePoint` object with time `t`, or None if
